@@ -23,7 +23,7 @@ CONFIGS = {
     ("C06", "thorough"): [cfg("opt-t5", 5, ("iters",), TreesOnly=True, MaxStop=5, MaxHide=5, NegLevel=True),
                           cfg("opt-t6s", 6, ("iters",), TreesOnly=True, MaxStop=2, MaxHide=2)],
     ("C14", "quick"): [cfg("search-f4", 4, ("findall", "find", "byattr"))],
-    ("C14", "thorough"): [cfg("search-f5", 5, ("findall", "find", "byattr"))],
+    ("C14", "thorough"): [cfg("search-f5", 5, ("findall", "find")), cfg("byattr-t5", 5, ("byattr",), TreesOnly=True)],
     ("C15", "quick"): [cfg("walk-f6", 6, ("walk",))],
     ("C15", "thorough"): [cfg("walk-f8", 8, ("walk",))],
     ("C17", "quick"): [cfg("all-f4", 4, ("nav", "common", "iters", "walk", "find"), MaxTuple=2, MaxStop=1, MaxHide=1, sample_others=0)],
